@@ -2,7 +2,7 @@ SPECIFICATION SpecC
 CONSTANTS
   Chains = {"default", "a"}
   MaxSteps = 0
-  Skip <- SkipF1
+  Skip <- SkipNone
   NoScan = FALSE
-INVARIANTS Inv_NoDeadlock Inv_ConcNoLockLeft
+INVARIANTS Inv_NoDeadlock Inv_ConcNoLockLeft Inv_DeadlockIsABBA
 CHECK_DEADLOCK FALSE
